@@ -42,8 +42,18 @@ class SetMutator(CollectionAttrMutator):
                 f"Attempted to add an invalid item `{repr(item)}` to `{self.attr_spec.qualified_name}`. Expected item of type `{type_label(self.attr_spec.item_type)}`."
             )
         if index is not MISSING and index is not None and replace:
+            before = list(self.collection)
             self.collection.discard(index)
-        self.collection.add(item)
+            try:
+                self.collection.add(item)
+            except BaseException:
+                # The replacement was refused: put back what was discarded.
+                for old_item in before:
+                    if old_item not in self.collection:
+                        self.collection.add(old_item)
+                raise
+        else:
+            self.collection.add(item)
 
     def add_item(self, item, *, value_or_index=MISSING, replace=True, attrs=None):  # pylint: disable=arguments-differ
         return self._mutate_collection(
